@@ -79,6 +79,10 @@ CLAIMED = {
             "Lean 4 theorems (columns_any_layout, dump_eq_query, dump_option_effect (one theorem per option), load_dump_coo, load_dump_bg2, pairs_layout_independent, parseFieldParam_spec) + CLI differential correspondence over all 128 dump option combinations, dump->load round trips and all column layouts",
             "Proof: for every injective layout the parsed field f is the line's column col f (formal content of fix D12); dump rows are the annotator mapped over the library query (C03 engines, C12 balanced cell); each dump option has its documented effect and no other; loading dumped COO/BG2 records in any order and chunking reproduces the stored table. Partial: cloadPairs = pairsSpec for any chunking is proved per chunk (counts per key and total), the cross-chunk statement is kept as an unproved Statement and asserted L1 = L0 at run time.",
             "Trusted: Lean kernel; model tied by correspondence; character-level CSV parsing/formatting and float formatting are pandas primitives."),
+    "C15": ("DESIGN.md §5 C15",
+            "Lean 4 theorems over a flat path->entry HDF5 file model with an invariant WF preserved by every operation (copy_reads_equal, copy_frame, mv_frame, mv_source_gone_partial, list_exact_history, isCooler_total, create_append_frame, create_w_replaces, recreate_replaces) + exhaustive short histories and seeded random histories against real files",
+            "Proof: after a successful cp/ln/ln -s the destination reads what the source read; whatever the outcome only the destination file changes and nothing outside the destination's footprint (and the source for mv) changes; same-file mv removes the source; listing is exact for link-free files after any history; the recognition test is total; append-mode creation keeps all other collections and unrelated attributes, write mode replaces the file, re-creation replaces the collection. D4 (cross-file mv keeps the source) and D5 (external links listed under the target's path) are recorded findings proved as theorems about the model of the current code and matched through variant oracles.",
+            "Trusted: Lean kernel; model tied by correspondence; HDF5 link resolution/Group.copy are primitives of the file model; some h5py corners end a history without a verdict (counted). Partial: mv through links, list_exact with soft links, uri_slash (proved in C19's model)."),
 }
 
 NOT_YET = {}
